@@ -35,8 +35,9 @@ PKG = "yv-c15"
 
 # (cfg, channels of the config, coverage?)
 GEN = {
-    "quick": [("Gen_Executor_quick.cfg", 2, True)],
-    "thorough": [("Gen_Executor_trans.cfg", 2, True), ("Gen_Executor_pinned.cfg", 2, False),
+    "quick": [("Gen_Executor_quick.cfg", 2, True), ("Gen_Executor_rewake.cfg", 1, False)],
+    "thorough": [("Gen_Executor_trans.cfg", 2, True), ("Gen_Executor_rewake.cfg", 1, False),
+                 ("Gen_Executor_pinned.cfg", 2, False),
                  ("Gen_Executor_b3.cfg", 2, False), ("Gen_Executor_t4.cfg", 2, False),
                  ("Gen_Executor_t4b3.cfg", 1, False)],
 }
@@ -192,7 +193,7 @@ def run(tier):
         if stt["mismatched"]:
             for fm in stt["first_mismatch"]:
                 vlib.log(f"[p2] first difference: {json.dumps(fm)[:400]}")
-            n_mm = _subsample_runs(mm, 300)
+            n_mm = _subsample_runs(mm, 1200)
             info, bad = _validate(rep, mm, f"replay of {cfg}", mk_replay)
             validated_events += info["events"]
             drift += max(0, n_mm - bad)
